@@ -302,7 +302,7 @@ def _with_false(text):
     return t + "\n ensures false,"
 
 
-def generate(u, repo, specs_dir, twin_of=None, extra="", prelets=None):
+def generate(u, repo, specs_dir, twin_of=None, extra="", prelets=None, inline=None):
     """Returns (text, meta).  meta: items with generated line ranges, edit logs, functions under
     contract.  twin_of = index of the item whose contract gets `ensures false` (vacuity twin)."""
     out = []
@@ -372,6 +372,8 @@ def generate(u, repo, specs_dir, twin_of=None, extra="", prelets=None):
                     raise rsx.LostAnchor("expect-derive: hand-written `impl %s for %s` in %s" % (tr, ty, rel))
     for idx, it in enumerate(u["items"]):
         item = rsx.extract(repo, it["relpath"], it["steps"])
+        if inline:
+            item.inline_helpers(repo, inline)
         contracted = apply_edits(item, it["edits"], twin_false=(twin_of == idx), prelets=(prelets or {}).get(idx))
         item.normalise_wild_closure_params()
         cur = "".join(out)
